@@ -53,6 +53,9 @@ def strategy(draw):
         chans = [j for j, op in enumerate(spec['lfs'][0]['ops']) if op['t'] == 'channel']
         spec['write']['opts']['inline_ops'] = [j for k, j in enumerate(chans) if k % 2 == draw(st.integers(0, 1))]
     spec['fail'] = draw(st.sampled_from([None, None, None, 'missing-dataset', 'bad-ocs']))
+    if spec['write']['source'] in ('dict', 'mixed'):
+        # the dict may be a dict subclass whose look-ups have side effects (defaultdict) or that keeps an order
+        spec['dict_kind'] = draw(st.sampled_from([None, 'defaultdict', 'defaultdict', 'ordered']))
     spec['hc'] = draw(st.integers(0, 3)) == 0       # built and written inside high-compatibility mode (may refuse: fine)
     return spec
 
@@ -90,6 +93,7 @@ class C19(Property):
         plain = spec.pop('plain', False)
         renamed = spec.pop('renamed_fields', False)
         hc = spec.pop('hc', False)
+        dict_kind = spec.pop('dict_kind', None)
         import contextlib
         from dliswriter import high_compatibility_mode
         from dliswriter.configuration import global_config
@@ -115,6 +119,15 @@ class C19(Property):
             kw['output_chunk_size'] = spec['sul']['vrl'] - 2
         if fail == 'missing-dataset' and isinstance(data, dict) and data:
             data.pop(next(iter(reversed(list(data)))))
+        if isinstance(data, dict) and dict_kind:
+            import collections
+            if dict_kind == 'defaultdict':
+                wrapped = collections.defaultdict(lambda: np.zeros(rows, dtype=np.float32))
+                wrapped.update(data)
+            else:
+                wrapped = collections.OrderedDict(data)
+            data = wrapped
+            labels.append('dict-subclass:' + dict_kind)
         if data is not None:
             kw['data'] = data
         before = {k: fingerprint(v) for k, v in b.supplied.items()}
